@@ -147,6 +147,12 @@ def configs(tier):
             ((2, 2, 2), (2, 2), ([1], [0]), ([2], [1])),
             ((2, 2), (2, 2), 2, ()),
             ((2, 2, 2), (2, 2, 2), ([-1], [0]), 1),
+            # negative modes on the SECOND operand, operands of different orders (normalisation must use each operand's own order)
+            ((2, 2, 2), (2, 2), ([2], [-2]), ()),
+            ((2, 2), (2, 2, 2), ([-1], [-3]), ()),
+            ((2, 3, 2), (3, 2), ([1], [-2]), ([0], [-1])),
+            ((2, 2), (2, 1, 2), ([0], [-1]), ()),
+            ((2, 2, 2, 1), (2, 2), ([-3], [-1]), ([0], [-2])),
         ]
         if not quick:
             tds += [((2, 3, 2), (3, 2, 2), ([1, 2], [0, 1]), ()), ((2, 3, 2, 2), (2, 2, 3), ([1], [2]), ([0, 3], [1, 0])), ((3, 2, 2), (2, 3, 2), ([2], [0]), ([0], [1]))]
